@@ -55,6 +55,8 @@ pred Malformed(rd int, i int, cc int) := HasNode(rd, i, cc) && MalformedLine(RdL
 // HeadCount: number of headings among the first k lines. evLine: callback event -> number of lines read when raised.
 // ---------------------------------------------------------------------------------------------
 ghost evLine seq[int]
+ghost procOf   seq[int]   // record event -> index of the Process call made for it (walk variant)
+ghost evOfProc seq[int]   // Process call -> record event
 fun GoodEntry(l string, cc int) bool opaque := IsEntryPos(l, cc) && LastSep(Trimmed(l)) != -1 && PfOk(QtyTok(l))
 fun EntryName(l string) string := let t := Trimmed(l) in let n := t[0:LastSep(t)] in n[TrimLo(n, "\t \n:\"-"):TrimHi(n, "\t \n:\"-")]
 fun EntryVal(l string) float64 := PfVal(QtyTok(l))
@@ -237,19 +239,24 @@ func ParseStreamCallback variant loaddb
 // ---------------------------------------------------------------------------------------------
 func ParseStreamCallback variant walk
   bind callback = utils.WalkNodesInStream$1
-  props C08 C09 C10 C17
+  props C08 C09 C10 C17 C06 C12
   requires @reporter RepInv(captured(callback, r)) && (captured(callback, filter) == nil || *captured(callback, filter) != nil)
   // the frame is the callback's: besides objects the parse allocates itself only the reporters' state changes
   modifies captured(callback, t), captured(callback, ok), captured(callback, ln)
   modifies heap(shared.TreeNode), maps(string, *shared.TreeNode), heap(balance.balanceSingleReporter), arrays(float64), maps(string, shared.AccValues), maps(string, bool), maps(string, float64)
-  modifies ghost(cbLen, cbErr, cbNode, cbStop, cbRet, cbLineNo, cbLine, cbHeader, cbElems, cbNElems, scRd, scPos, privLo, evOf, accKey, accP, accN, accH, bufSticky, sinkFailed, sinkPend, prLen, prSink, prArg, prArgs, csvLen, csvW, csvN, csvRow, tnodes, tdepth, tmax, tmapOf, jlen)
+  modifies ghost(cbLen, cbErr, cbNode, cbStop, cbRet, cbLineNo, cbLine, cbHeader, cbElems, cbNElems, scRd, scPos, privLo, evOf, accKey, accP, accN, accH, bufSticky, sinkFailed, sinkPend, prLen, prSink, prArg, prArgs, csvLen, csvW, csvN, csvRow, tnodes, tdepth, tmax, tmapOf, jlen, procLen, procTime, procSrc, evLine, procOf, evOfProc)
   let R := captured(callback, r)
+  let DF := captured(callback, dateFormat)
   let B := RepBuf(captured(callback, r))
   ensures @fails-on-malformed [C09] result == nil ==> (forall i int :: {RdLine(rd, i)} 0 <= i && i < RdN(rd) ==> !Malformed(rd, i, cc))
   ensures @fails-on-unreadable [C10] result == nil ==> !RdFailed(rd)
   ensures @quotes-first [C09] forall j int :: {cbErr[j]} old(cbLen) <= j && j < cbLen && cbErr[j] != nil ==> j == cbLen - 1 && result == cbErr[j] && (forall i2 int :: {RdLine(rd, i2)} 0 <= i2 && i2 < cbLineNo[j] - 1 ==> !Malformed(rd, i2, cc))
   ensures @error-or-all [C10] result == nil ==> (forall j int :: {cbStop[j]} old(cbLen) <= j && j < cbLen ==> !cbStop[j] && cbErr[j] == nil)
   ensures @reporter [C17 C08] captured(callback, r) == R && RepInv(R) && RepBuf(R) == B && BufStep(B)
+  ensures @events-are-headings [C06 C12] result == nil ==> cbLen - old(cbLen) == HeadCount(rd, RdN(rd), cc) && (forall j int :: {cbHeader[j]} old(cbLen) <= j && j < cbLen ==> cbHeader[j] == RecHdr(rd, evLine[j], cc) && HeadCount(rd, evLine[j], cc) == j - old(cbLen) + 1)
+  ensures @selected-processed [C06 C12] result == nil ==> (forall j int :: {cbHeader[j]} old(cbLen) <= j && j < cbLen ==> ParseTimeOk(DF, cbHeader[j]) && ((captured(callback, filter) == nil || FilterSel(*captured(callback, filter), Inst(ParseTimeVal(DF, cbHeader[j])))) ==> old(procLen) <= procOf[j] && procOf[j] < procLen && procTime[procOf[j]] == ParseTimeVal(DF, cbHeader[j]) && evOfProc[procOf[j]] == j))
+  ensures @only-selected [C06 C12] result == nil ==> (forall k int :: {evOfProc[k]} old(procLen) <= k && k < procLen ==> old(cbLen) <= evOfProc[k] && evOfProc[k] < cbLen && (captured(callback, filter) == nil || FilterSel(*captured(callback, filter), Inst(ParseTimeVal(DF, cbHeader[evOfProc[k]])))) && procOf[evOfProc[k]] == k)
+  ensures @file-order [C06 C12] result == nil ==> (forall k int :: {evOfProc[k]} old(procLen) <= k && k + 1 < procLen ==> evOfProc[k] < evOfProc[k + 1])
   loop 1 {
     invariant @clean forall i int :: {RdLine(rd, i)} 0 <= i && i < lineNumber ==> !Malformed(rd, i, cc)
     invariant @noerr forall j int :: {cbErr[j]} old(cbLen) <= j && j < cbLen ==> cbErr[j] == nil
@@ -259,9 +266,27 @@ func ParseStreamCallback variant walk
     invariant @filter (captured(callback, filter) == nil || *captured(callback, filter) != nil) && captured(callback, filter) == old(captured(callback, filter))
     invariant @own node != nil ==> arr(node.Elements) >= privLo && (node.Metadata != nil ==> ref(node.Metadata) >= privLo && arr(*node.Metadata) >= privLo)
     invariant @book-below RepBookBelow(R, privLo)
+    invariant @df captured(callback, dateFormat) == DF && procLen >= old(procLen)
+    invariant @rec-hdr node != nil ==> node.Header == RecHdr(rd, lineNumber, cc)
+    invariant @rec-count cbLen - old(cbLen) == HeadCount(rd, lineNumber, cc) - (if node != nil then 1 else 0)
+    invariant @rec-events forall j int :: {cbHeader[j]} old(cbLen) <= j && j < cbLen ==> cbHeader[j] == RecHdr(rd, evLine[j], cc) && HeadCount(rd, evLine[j], cc) == j - old(cbLen) + 1
+    invariant @selected-processed forall j int :: {cbHeader[j]} old(cbLen) <= j && j < cbLen ==> ParseTimeOk(DF, cbHeader[j]) && ((captured(callback, filter) == nil || FilterSel(*captured(callback, filter), Inst(ParseTimeVal(DF, cbHeader[j])))) ==> old(procLen) <= procOf[j] && procOf[j] < procLen && procTime[procOf[j]] == ParseTimeVal(DF, cbHeader[j]) && evOfProc[procOf[j]] == j)
+    invariant @proc-range forall k int :: {evOfProc[k]} old(procLen) <= k && k < procLen ==> old(cbLen) <= evOfProc[k] && evOfProc[k] < cbLen
+    invariant @only-selected forall k int :: {evOfProc[k]} old(procLen) <= k && k < procLen ==> old(cbLen) <= evOfProc[k] && evOfProc[k] < cbLen && (captured(callback, filter) == nil || FilterSel(*captured(callback, filter), Inst(ParseTimeVal(DF, cbHeader[evOfProc[k]])))) && procOf[evOfProc[k]] == k
+    invariant @file-order forall k int :: {evOfProc[k]} old(procLen) <= k && k + 1 < procLen ==> evOfProc[k] < evOfProc[k + 1]
   }
+  ghost after call 1 NewScanner { unfold HeadCount(rd, 0, cc) }
+  ghost before call 1 Trim { unfold RecHdr(rd, lineNumber, cc); unfold HeadCount(rd, lineNumber, cc) }
+  ghost before dyncall 1 { set evLine := store(evLine, cbLen, lineNumber - 1); set procOf := store(procOf, cbLen, procLen); set evOfProc := store(evOfProc, procLen, cbLen) }
+  ghost before dyncall 4 { set evLine := store(evLine, cbLen, lineNumber); set procOf := store(procOf, cbLen, procLen); set evOfProc := store(evOfProc, procLen, cbLen) }
 
 // ---------------------------------------------------------------------------------------------
+  // (stepping stones on the branch that has just flushed a record, before it joins the branch that had none)
+  ghost after dyncall 1 {
+    assert @sel-after-flush !cbStop[cbLen - 1] ==> (forall j int :: {cbHeader[j]} old(cbLen) <= j && j < cbLen ==> ParseTimeOk(DF, cbHeader[j]) && ((captured(callback, filter) == nil || FilterSel(*captured(callback, filter), Inst(ParseTimeVal(DF, cbHeader[j])))) ==> old(procLen) <= procOf[j] && procOf[j] < procLen && procTime[procOf[j]] == ParseTimeVal(DF, cbHeader[j]) && evOfProc[procOf[j]] == j))
+    assert @only-after-flush !cbStop[cbLen - 1] ==> (forall k int :: {evOfProc[k]} old(procLen) <= k && k < procLen ==> old(cbLen) <= evOfProc[k] && evOfProc[k] < cbLen && (captured(callback, filter) == nil || FilterSel(*captured(callback, filter), Inst(ParseTimeVal(DF, cbHeader[evOfProc[k]])))) && procOf[evOfProc[k]] == k)
+  }
+
 // ParseStreamCallback specialised by the callback of csv.CSVDatabase: the stop-on-error results plus the
 // summary of everything written through the csv writer (C17)
 // ---------------------------------------------------------------------------------------------
